@@ -128,9 +128,10 @@ func DrawHello(t *rapid.T, o HelloOpts) *HelloPlan {
 		shuffle(t, "cs", ciphers)
 	}
 	ciphers = sprinkle(t, "c", ciphers, unknownCiphers)
-	if drawBool(t, "manyc", 3) {
-		// > 99 cipher suites
-		for i := 0; i < 110; i++ {
+	if drawBool(t, "manyc", 4) {
+		// > 99 cipher suites; also beyond 255 (one-byte counters)
+		nmany := []int{110, 260, 300}[rapid.IntRange(0, 2).Draw(t, "manycn")]
+		for i := 0; i < nmany; i++ {
 			ciphers = append(ciphers, uint16(0xe000+i))
 		}
 	}
@@ -225,8 +226,9 @@ func DrawHello(t *rapid.T, o HelloOpts) *HelloPlan {
 		id := UtlsStrictExts[rapid.IntRange(0, len(UtlsStrictExts)-1).Draw(t, "strictid")]
 		exts = append(exts, ExtPlan{Kind: "generic", ID: id, Data: make([]byte, rapid.IntRange(0, 6).Draw(t, "strictlen"))})
 	}
-	if drawBool(t, "manyx", 3) {
-		for i := 0; i < 105; i++ {
+	if drawBool(t, "manyx", 4) {
+		nmany := []int{105, 260}[rapid.IntRange(0, 1).Draw(t, "manyxn")]
+		for i := 0; i < nmany; i++ {
 			exts = append(exts, ExtPlan{Kind: "generic", ID: uint16(0xe100 + i)})
 		}
 	}
